@@ -531,6 +531,11 @@ func (x *Exec) goEq(t types.Type, a, c *smt.Term) *smt.Term {
 		if len(si.Fields) == 0 || len(si.Fields) > 12 {
 			return x.b.Eq(a, c)
 		}
+		if !x.fp && structLeaves(t, 0) > 3 {
+			// real model: equality of reals is structural, so a large record is
+			// compared as one datatype value (keeps array/quantifier goals small)
+			return x.b.Eq(a, c)
+		}
 		var cs []*smt.Term
 		for i := range si.Fields {
 			cs = append(cs, x.goEq(si.FTypes[i], x.fieldOf(a, t, i), x.fieldOf(c, t, i)))
@@ -686,4 +691,17 @@ func (x *Exec) mentionsInfLeaf(t *smt.Term, depth int) bool {
 		return x.mentionsInfLeaf(t.Args[1], depth+1) || x.mentionsInfLeaf(t.Args[2], depth+1)
 	}
 	return false
+}
+
+// structLeaves counts the scalar leaves of a (nested) struct type.
+func structLeaves(t types.Type, depth int) int {
+	st, ok := t.Underlying().(*types.Struct)
+	if !ok || depth > 4 {
+		return 1
+	}
+	n := 0
+	for i := 0; i < st.NumFields(); i++ {
+		n += structLeaves(st.Field(i).Type(), depth+1)
+	}
+	return n
 }
